@@ -302,6 +302,49 @@ func typeKey(t types.Type) string {
 	return s
 }
 
+// structMemKey names the memory layout of a struct type: named types that share one underlying struct
+// (type B A; pointers to them convert into each other) use the same field heaps.
+var structCanon = map[*types.Struct]string{}
+
+func structMemKey(t types.Type) string {
+	st, ok := t.Underlying().(*types.Struct)
+	if !ok {
+		return typeKey(t)
+	}
+	if _, named := types.Unalias(t).(*types.Named); !named {
+		return typeKey(t)
+	}
+	if k, ok := structCanon[st]; ok {
+		return k
+	}
+	// canonical name: the named type declared with the struct literal itself, found by position - the type
+	// name whose declaration immediately precedes the struct's fields; otherwise the first one seen
+	k := typeKey(t)
+	if n, ok := types.Unalias(t).(*types.Named); ok && n.Obj() != nil && n.Obj().Pkg() != nil {
+		scope := n.Obj().Pkg().Scope()
+		best := ""
+		for _, name := range scope.Names() {
+			tn, ok := scope.Lookup(name).(*types.TypeName)
+			if !ok {
+				continue
+			}
+			if nn, ok := types.Unalias(tn.Type()).(*types.Named); ok && nn.TypeArgs().Len() == 0 {
+				if us, ok := nn.Underlying().(*types.Struct); ok && us == st {
+					kk := typeKey(nn)
+					if best == "" || kk < best {
+						best = kk
+					}
+				}
+			}
+		}
+		if best != "" && best < k {
+			k = best
+		}
+	}
+	structCanon[st] = k
+	return k
+}
+
 // ---------------------------------------------------------------------------
 // Symbolic values
 // ---------------------------------------------------------------------------
